@@ -57,6 +57,7 @@ class ActionContext(abc.ABC):
         self.trigger_context: 'TriggerContext' = parent
         self.location_action: 'LocationAction' = action
         self._triggered = False
+        self._recorded = False
         # each action collects into its own variable table, so actions triggered by the same event (e.g. two
         # tracepoints on one line) do not share or empty each other's variables
         self.var_cache = VariableCacheProvider()
@@ -73,7 +74,7 @@ class ActionContext(abc.ABC):
 
     def __exit__(self, exception_type, exception_value, exception_traceback):
         """Exit and close the context."""
-        if self.has_triggered():
+        if self.has_triggered() and not self._recorded:
             self.location_action.record_triggered(self.trigger_context.ts)
 
     def eval_watch(self, watch: str, source: str) -> Tuple[WatchResult, Dict[str, Variable], str]:
@@ -131,6 +132,21 @@ class ActionContext(abc.ABC):
     @abc.abstractmethod
     def _process_action(self):
         pass
+
+    def record_trigger(self) -> bool:
+        """
+        Check the limits of the action once more and record the fire, as one step.
+
+        Several threads can get past can_trigger at the same time; only as many as the limits allow get past here.
+
+        :return: True, if the limits (still) allow the action, the fire is then recorded
+        """
+        with self.location_action.lock:
+            if not self.location_action.can_trigger(self.trigger_context.ts):
+                return False
+            self.location_action.record_triggered(self.trigger_context.ts)
+            self._recorded = True
+            return True
 
     def has_triggered(self):
         """
